@@ -39,6 +39,7 @@ COMPONENTS = {
              "fcp.parser (CLI path reads schema files incl. modules)"],
     "stub": ["scratch output directory + content snapshots", "sys.addaudithook observer / write-fault injector",
              "recording wrapper around <plugin>.Generator.generate",
+             "fcp_simgen: a simulator-owned third-party plug-in registering seeded checks in every verifier category",
              "simulated wall clock / user / host behind fcp_cpp.generator's module globals"],
 }
 ASSUMPTIONS = [
@@ -52,18 +53,30 @@ TIERS = {
     "quick": {"runs": 1400, "chunk": 14, "wall": 100, "chunk_timeout": 400, "selftest": 6, "fault_share": 0.25},
     "thorough": {"runs": 20000, "chunk": 40, "wall": 800, "chunk_timeout": 900, "selftest": 10, "fault_share": 0.4},
 }
-EXPECTED_PROBES = {t: ["accept:dbc", "accept:can_c", "accept:cpp", "accept:nop", "reject:dbc", "reject:can_c", "reject:cpp",
+ISOLATE_RUNS = True
+
+
+def preload():
+    setup_repo_path()
+    import importlib
+    for m in ("fcp.codegen", "fcp.verifier", "fcp.parser", "fcp.error", "fcp.__main__", "click.testing", "fcp_dbc", "fcp_can_c", "fcp_cpp", "fcp_nop", "fcp_simgen"):
+        importlib.import_module(m)
+
+
+EXPECTED_PROBES = {t: ["accept:simgen", "reject:simgen", "simgen_second_check_in_category_rejects", "accept:dbc", "accept:can_c", "accept:cpp", "accept:nop", "reject:dbc", "reject:can_c", "reject:cpp",
                        "reject:nop", "reject_after_successful_generation", "reject_plugin_check", "reject_general_check",
                        "reject_in_module", "manager_reused_second_generator", "via_cli", "via_api", "stale_c_files_present",
                        "write_fault_fired", "outdir_absent"] for t in TIERS}
 
-GENERATORS = ["dbc", "can_c", "cpp", "nop"]
+GENERATORS = ["dbc", "can_c", "cpp", "nop", "simgen"]
+SIM_CATEGORIES = ["struct", "field", "enum", "impl", "signal_block", "type", "device"]
 INJECT = {
     "dup_type_struct_struct": "general", "dup_type_struct_enum": "general", "dup_type_enum_enum": "general",
     "dup_impl": "general", "dup_field": "general", "dup_enumerator_name": "general", "dup_enumerator_value": "general",
     "device_unknown_service": "general", "struct_without_fields": "general",
     "impl_unknown_struct": "plugin", "dup_can_id": "plugin", "wider_than_64": "plugin",
 }
+# fcp_simgen (stub plug-in): inj = ["plug", [categories...], index of the rejecting check or None, node pick]
 
 
 # ---------------------------------------------------------------------------
@@ -161,12 +174,17 @@ def shape_for(rng, gen):
             fields.append({"name": fn, "id": fi, "type": t})
         sname = names.struct()
         decls.append({"kind": "struct", "name": sname, "fields": fields})
-        decls.append({"kind": "impl", "protocol": "can", "type": sname, "name": sname,
-                      "fields": [["id", rng.randint(1, 2000)], ["device", "ecu"]] + ([["bus", "can1"]] if rng.random() < 0.4 else []),
-                      "signals": []})
-        if rng.random() < 0.4:
-            decls.append({"kind": "impl", "protocol": "can", "type": sname, "name": sname + "Alt",
-                          "fields": [["id", rng.randint(2001, 2040)], ["bus", rng.choice(["can1", "can2"])]], "signals": []})
+        buses = rng.sample(["can1", "can2", None], rng.randint(1, 2))
+        ids = rng.sample(range(1, 2040), 5)
+        for bi in range(weighted(rng, [(1, 4), (2, 3), (3, 2), (4, 1)])):
+            fl = [["id", ids[bi]]]
+            if bi == 0 or rng.random() < 0.8:
+                fl.append(["device", rng.choice(["ecu", "bms", "inv", "dash", "charger"])])
+            b = rng.choice(buses)
+            if b:
+                fl.append(["bus", b])
+            decls.append({"kind": "impl", "protocol": "can", "type": sname, "name": sname if bi == 0 else f"{sname}Alt{bi}",
+                          "fields": fl, "signals": []})
         return decls
     if gen == "can_c":
         decls = []
@@ -245,6 +263,25 @@ def inject(rng, decls, kind):
     return d, True
 
 
+def node_names(decls, category):
+    """Names of the nodes a verifier category iterates over (what fcp_simgen's checks match on)."""
+    if category == "struct":
+        return [d["name"] for d in decls if d["kind"] == "struct"]
+    if category == "enum":
+        return [d["name"] for d in decls if d["kind"] == "enum"]
+    if category == "type":
+        return [d["name"] for d in decls if d["kind"] in ("struct", "enum")]
+    if category == "field":
+        return [f["name"] for d in decls if d["kind"] == "struct" for f in d["fields"]]
+    if category == "impl":
+        return [d["name"] for d in decls if d["kind"] in ("impl", "struct")]
+    if category == "signal_block":
+        return [sb["name"] for d in decls if d["kind"] == "impl" for sb in d.get("signals", [])]
+    if category == "device":
+        return [d["name"] for d in decls if d["kind"] == "device"]
+    return []
+
+
 def split_into_module(rng, decls):
     """Move a closed prefix of the declarations into one module file (CLI path). Returns {rel: text}."""
     cut = 0
@@ -301,8 +338,14 @@ class Sys_:
                 if s.name == strip_struct:
                     s.fields = []
         v = self.verifier.make_general_verifier()
-        for g in gens:
-            self.mods[g].Generator().register_checks(v)
+        for g, cfg in gens:
+            # fcp_simgen's checks close over the configuration that was current when they were registered
+            saved = self.mods["simgen"].CONFIG["checks"]
+            self.mods["simgen"].CONFIG["checks"] = cfg or []
+            try:
+                self.mods[g].Generator().register_checks(v)
+            finally:
+                self.mods["simgen"].CONFIG["checks"] = saved
         # "any registered check rejects": call every registered check on every node of its category ourselves,
         # so that the verdict does not depend on Verifier.verify/run_checks propagating results (part of the gate)
         rejected = None
@@ -311,8 +354,9 @@ class Sys_:
             nodes = tree.get(category)
             if nodes.is_nothing():
                 continue
+            nodes = list(nodes.unwrap())        # materialised once: every check must see every node
             for check in v.checks[category]:
-                for node in nodes.unwrap():
+                for node in nodes:
                     try:
                         r = check(tree, tree, node)
                         if r.is_err() and rejected is None:
@@ -378,7 +422,14 @@ def gen_ops(rng, tier_cfg):
         if k == "gen":
             g = rng.choice(enabled)
             inj = None
-            if rng.random() < 0.55:
+            if g == "simgen":
+                # 1-4 plug-in checks in seeded categories; at most one of them rejects (a seeded node of its category)
+                cats = [rng.choice(SIM_CATEGORIES) for _ in range(rng.randint(1, 4))]
+                if rng.random() < 0.5:
+                    cats[-1] = cats[0]      # two checks in one category
+                rej = rng.randrange(len(cats)) if rng.random() < 0.6 else None
+                inj = ["plug", cats, rej, rng.randrange(1 << 16)]
+            elif rng.random() < 0.55:
                 cands = [k2 for k2, cat in INJECT.items()
                          if cat == "general" or (k2 == "impl_unknown_struct" and g in ("dbc", "can_c"))
                          or (k2 == "dup_can_id" and g == "dbc") or (k2 == "wider_than_64" and g == "can_c")]
@@ -473,10 +524,27 @@ def _execute(sysm, clock, ops, work, tier, probes, tr, distinct):
         decls = shape_for(rng, g)
         strip = None
         applied = False
-        if inj:
+        plug_cfg = None
+        if isinstance(inj, list):
+            # simgen: configure the stub plug-in's checks; the rejecting one names a node that exists in this schema
+            _, cats, rej, pick = inj
+            plug_cfg = []
+            for ci, cat in enumerate(cats):
+                target = None
+                if rej == ci:
+                    names = node_names(decls, cat)
+                    if names:
+                        target = names[pick % len(names)]
+                        applied = True
+                plug_cfg.append((cat, target))
+            if rej is not None and rej > 0 and applied and cats[rej] in cats[:rej]:
+                probes["simgen_second_check_in_category_rejects"] += 1
+            inj = "plug:" + ",".join(f"{c}{'!' if t else ''}" for c, t in plug_cfg)
+        elif inj:
             decls, applied = inject(rng, decls, inj)
             if inj == "struct_without_fields" and applied:
                 strip = [x for x in decls if x["kind"] == "struct"][0]["name"]
+        sysm.mods["simgen"].CONFIG["checks"] = plug_cfg or []
         in_module = False
         if via == "cli" and rng.random() < 0.5:
             files, in_module = split_into_module(rng, decls)
@@ -486,9 +554,9 @@ def _execute(sysm, clock, ops, work, tier, probes, tr, distinct):
         K.write_files(srcdir, files)
         # which checks are registered on the manager that will run this command
         if via == "api" and mgr == "reused":
-            gens_reg = reused_gens + [g]
+            gens_reg = reused_gens + [(g, plug_cfg)]
         else:
-            gens_reg = [g]
+            gens_reg = [(g, plug_cfg)]
         verdict, why = sysm.reference_verdict(srcdir, gens_reg, strip)
         if verdict == "unparsable":
             probes["generated_schema_unparsable"] += 1
@@ -516,8 +584,8 @@ def _execute(sysm, clock, ops, work, tier, probes, tr, distinct):
                                 s.fields = []
                     if mgr == "reused":
                         manager = reused_manager
-                        reused_gens.append(g)
-                        if len(set(reused_gens)) >= 2:
+                        reused_gens.append((g, plug_cfg))
+                        if len(set(x[0] for x in reused_gens)) >= 2:
                             probes["manager_reused_second_generator"] += 1
                     else:
                         manager = sysm.codegen.GeneratorManager(sysm.verifier.make_general_verifier())
@@ -558,7 +626,7 @@ def _execute(sysm, clock, ops, work, tier, probes, tr, distinct):
             probes["reject:" + g] += 1
             if had_success:
                 probes["reject_after_successful_generation"] += 1
-            probes["reject_plugin_check" if (applied and INJECT.get(inj) == "plugin") else "reject_general_check"] += 1
+            probes["reject_plugin_check" if (applied and (INJECT.get(inj) == "plugin" or str(inj).startswith("plug:"))) else "reject_general_check"] += 1
             if in_module:
                 probes["reject_in_module"] += 1
             if spy.calls:
@@ -665,7 +733,9 @@ def run_one(seed: int, index: int, tier: str) -> dict:
     faults = Counter()
     for op in ops:
         if op[0] == "gen":
-            if op[3]:
+            if isinstance(op[3], list):
+                faults["check_failure:simgen_plugin_check" if op[3][2] is not None else "simgen_plugin_checks_all_pass"] += 1
+            elif op[3]:
                 faults["check_failure:" + op[3]] += 1
             if op[6]:
                 faults["write_fault_armed"] += 1
